@@ -12,6 +12,7 @@ RULE = ('cases: bf.ref <function> <memory> <position> / bf.set <function> <memor
 TRUSTED_BASE = TB_COMMON + ['tools/bf2coq.py translates all 111 functions syntactically from the clang AST for three configurations; the build configuration is additionally run against the compiled header on every check; __builtin_bswapN is modelled as octet reversal; union punning and float passing are modelled on bit patterns; the big-endian configuration is proof-only (not executable on this host)']
 ASSUMPTIONS = ['LP64 data model, 8-bit bytes; float/double arguments are identified with their IEEE-754 bit patterns (no FPU canonicalisation when passed by value: checked on the host for NaN payloads)']
 EXHAUSTIVE = {'quick': False, 'thorough': False}
+NO_SHRINK = True   # shrinking the memory argument would move the access out of the block
 TECHNIQUE = 'translator (clang AST -> Coq) + Coq proof for all 111 functions in 3 configurations (symbolic byte moves; mask-and-shift swaps via lor-homomorphism lifting from single-bit evaluations) + correspondence on the host configuration'
 LEVEL_TEXT = ('Properties_C15.v: for each configuration (little-endian+builtin swap = the build, little-endian+mask swap, big-endian+mask swap) every bf_set_* writes exactly width/8 octets in the named order '
               'leaving all others untouched and returns the position just past them, every bf_ref_* returns the value of those octets (sign-extended for signed kinds, bit-identical for floats), '
